@@ -28,8 +28,8 @@ double @r@lamch_(char *c) {
   if (*c == 'B' || *c == 'b') return 2;
   return nondet_real();
 }
-double SuperLU_timer_(void) { double t; return t; }
-int_t sp_ienv(int_t i) { int_t r; __CPROVER_assume(r >= 1 && r <= 1000); return r; }
+double SuperLU_timer_(void) { return 0.0; }   /* timings are not observable by any property */
+int_t sp_ienv(int_t i) { int_t r = nondet_int(); __CPROVER_assume(r >= 1 && r <= 1000); return r; }
 
 #ifdef STUB_POOLS
 /* pool mode (for the static-frame instrumentation, which cannot follow writes into memory allocated in callees):
